@@ -8,6 +8,19 @@ import facts
 from runner import Check
 
 PROPS = {
+    "C15": ("rules_c15", "other",
+            "Decided: structural symmetry of writer and reader for every serde-enabled type: Serialize/Deserialize twins, both "
+            "derive-generated; no serde attribute other than matching bound(serialize)/bound(deserialize) pairs on any item, field or "
+            "variant (expanded AST); writer field/variant names (from the derived serialize MIR) == declared fields == reader FIELDS/"
+            "VARIANTS constants == reader identifier visitor; PartialEq derived; field types serialise through paired or trusted impls. "
+            "Not decided: fidelity of a concrete format (JSON cannot carry ±inf/NaN), float printing."),
+    "C06": ("rules_c06", "other",
+            "Decided: (1) all 4x257 table entries and both tail constants, as const-evaluated by rustc, satisfy the ziggurat "
+            "equations (monotone, F[i]=f(X[i]) to 1e-14, equal layer areas = base strip + tail to 1e-8, end points) — exhaustive; "
+            "(2) both ziggurat call sites are wired to a consistent (X,F) pair of one family, the matching symmetry flag, a pdf "
+            "that is the family's density over the reals (exp-of-polynomial domain) and a tail routine using that family's R; "
+            "(3) structural rules inside `ziggurat` (index mask/shift/bounds, layer-index agreement, tail entry). "
+            "Not decided: the sampled law of StandardNormal/Exp1 itself."),
     # id: (module, level, explanation)
     "C14": ("rules_c14", "proof",
             "Decided: type-and-effect purity of every crate-local function (sampling, constructors, Clone, PartialEq, "
